@@ -208,7 +208,13 @@ func (d *Driver) handleCallbacks(
 	}()
 
 	select {
-	case r := <-c:
+	case r, ok := <-c:
+		if !ok {
+			// the worker saw the deadline first and closed the channel; that is the timeout, not a
+			// result (receiving from the closed channel yields nil).
+			return nil, fmt.Errorf("%w: timeout handling callbacks", util.ErrTimeoutError)
+		}
+
 		if r.err != nil {
 			return nil, r.err
 		}
